@@ -23,6 +23,9 @@ cpdef enum TensorType:
     DATA = 2
 
 
+_TENSORTYPE_NAMES = {SPARSE: 'sparse', DENSE: 'dense', DATA: 'matrix'}
+
+
 @cython.boundscheck(False)
 @cython.wraparound(False)
 cpdef Data _br_term_data(Data A, double[:, ::1] spectrum,
@@ -316,7 +319,9 @@ cdef class _BlochRedfieldElement(_BaseElement):
                                      type(self.H.oper) is CSR),
                 QobjEvo(self.a_op, args=args),
                 self.spectra,
-                self.sec_cutoff
+                self.sec_cutoff,
+                self.eig_basis,
+                _TENSORTYPE_NAMES[self.tensortype]
             )
         H = None
         for old, new in cache:
@@ -329,7 +334,8 @@ cdef class _BlochRedfieldElement(_BaseElement):
                                      type(self.H.oper) is CSR)
         new = _BlochRedfieldElement(
             H, QobjEvo(self.a_op, args=args),
-            self.spectra.replace_arguments(**args), self.sec_cutoff
+            self.spectra.replace_arguments(**args), self.sec_cutoff,
+            self.eig_basis, _TENSORTYPE_NAMES[self.tensortype]
         )
         cache.append((self, new))
         cache.append((self.H, H))
@@ -617,7 +623,9 @@ cdef class _BlochRedfieldCrossElement(_BlochRedfieldElement):
                 QobjEvo(self.a_op, args=args),
                 QobjEvo(self.b_op, args=args),
                 self.spectra,
-                self.sec_cutoff
+                self.sec_cutoff,
+                self.eig_basis,
+                _TENSORTYPE_NAMES[self.tensortype]
             )
 
         H = None
@@ -629,9 +637,10 @@ cdef class _BlochRedfieldCrossElement(_BlochRedfieldElement):
         if H is None:
             H = _EigenBasisTransform(QobjEvo(self.H.oper, args=args),
                                      type(self.H.oper) is CSR)
-        new = _BlochRedfieldElement(
+        new = _BlochRedfieldCrossElement(
             H, QobjEvo(self.a_op, args=args), QobjEvo(self.b_op, args=args),
-            self.spectra.replace_arguments(**args), self.sec_cutoff
+            self.spectra.replace_arguments(**args), self.sec_cutoff,
+            self.eig_basis, _TENSORTYPE_NAMES[self.tensortype]
         )
         cache.append((self, new))
         cache.append((self.H, H))
